@@ -11,7 +11,7 @@ CLAIMS = {
          "Exhaustive for the toy instance (bounded operations); sampled (seeded random histories) at full scale. The specification is the oracle in both.", "4 C01"),
  "C02": ("TLC checks StepOK(x, Step(x)) for every input tuple of a toy domain (MC_SwapStep, exhaustive) + TLC evaluates the StepOK contract (exact big-integer "
          "curve amounts, rounding direction, budget exhaustion, one-price-unit maximality) on every successful compute_swap call of a boundary grid and of random inputs, "
-         "and on every swap step recorded in histories of the real program",
+         "on every swap step recorded in histories of the real program, and on every swap step the repository's own 654 tests execute (test suite built with the hook cfg, records validated by TLC)",
          "the full-scale input space is sampled (boundary grid from the case analysis of token_math.rs + seeded random), not enumerated", "4 C02"),
  "C09": ("TLC evaluates TickMathOK on the recorded tick->sqrt-price table (monotone, endpoints, ratio within 2^-32) and the inverse contract on every tick price, "
          "one unit either side and random interior prices; thorough tier enumerates all 887273 ticks (exhaustive=true there)",
